@@ -48,6 +48,11 @@ CLAIMED["C07"] = ("§3 C07",
     "Decides that every exporter dispatcher covers every implementor of the adt interface it switches on, that each expression-side case uses every child and payload of its node onward, that the value exporter consults arcs/base value/arc types/closedness/conjuncts, that adt.tokenMap is injective and covers every operator, that every Profile field set by cue.Value.Syntax is consulted, that a bound is dropped for `uint` only when it is `>=0`, and that mergeValues' struct-less shortcuts are taken only without `...`. It does not decide that the produced expression means the same.",
     "parenthesisation, let hoisting, reference relinking and label quoting are value-level")
 
+CLAIMED["C10"] = ("§3 C10",
+    "type-resolved who-may-produce-JSON-strings rule on the appendJSON path, CFG gates (IsConcrete, json.Valid, StringLabelNeedsQuoting), kind-case exhaustiveness, SetEscapeHTML-before-Encode ordering, no map iteration on the output path",
+    "Decides that string values and object keys become JSON text only through internal/encoding/json.Marshal (no HTML-escaping json.Marshal, no Go-syntax quoting), that every json.Encoder on the path sets EscapeHTML before Encode, that Value.appendJSON handles every concrete kind and rejects non-concrete values first, that the decoders return an expression only after json.Valid/Decode and the parser succeeded, that output iteration is index-wise, and that the importer unquotes a key only when StringLabelNeedsQuoting is false. It does not decide number spelling or escaping correctness.",
+    "encoding/json.Encoder and apd number formatting are trusted")
+
 # properties not claimed (yet) -> reason
 NOT_APPLICABLE = {
     "C03": "value-level: the content is the cell values of the bound-simplification decision table over numbers; no shape rule separates a correct table from an off-by-one (DESIGN.md §4)",
